@@ -160,10 +160,7 @@ def run(ctx):
     # ------------------------------------------------------------ R8
     r8 = ctx.rule("C10.R8", "no attribute name reaches an aborting accessor: tag-asserting accessors are called only under the matching tag test")
     dz = D.Discr(P, eng)
-    scope = [f for f in P.fns_in("libxcm/core/attr_tree.c")
-             if f.name in ("node_lookup", "attr_tree_set_value", "attr_tree_get_value", "attr_tree_get_list_len",
-                           "visit_value", "visit_dict", "visit_list", "visit_node", "foreach_dict_key", "foreach_list_index",
-                           "attr_tree_get_all")]
+    scope = [f for f in P.fns_in("libxcm/core/attr_tree.c") if f.name in NAME_DRIVEN]
     for f in scope:
         r8.instance(f.name)
     r8.floor(11, "name-driven functions of attr_tree.c")
@@ -215,6 +212,13 @@ def run(ctx):
 
 
 # ---------------------------------------------------------------------------
+# the functions of attr_tree.c that walk the tree along a name supplied from outside (xcm_attr_get/set, get-all); the
+# tree *construction* functions are fed by the library's own names only
+NAME_DRIVEN = ("node_lookup", "attr_tree_set_value", "attr_tree_get_value", "attr_tree_get_list_len",
+               "visit_value", "visit_dict", "visit_list", "visit_node", "foreach_dict_key", "foreach_list_index",
+               "attr_tree_get_all")
+
+
 def check_return_eq(P, eng, rule, getters):
     """functions writing a constant number of bytes K to a pointer parameter
     return K on the path through the write"""
